@@ -97,3 +97,33 @@ Theorem C01_honest_login_agrees_at_each_of_the_20_suites :
   all_suites (fun _ _ _ _ CS => CurveLaws CS -> C01_honest_login_agrees_statement CS).
 Proof. apply at_the_20_suites. exact C01_honest_login_agrees. Qed.
 Print Assumptions C01_honest_login_agrees_at_each_of_the_20_suites.
+
+
+(* further theorems above, restated at the 20 suites *)
+
+Definition C01_oprf_unblind_statement {E Sc Pk Sk} (CS : Suite E Sc Pk Sk) : Prop :=
+  forall input r k P, ve CS P -> vs CS r -> vs CS k ->
+    voprf_finalize (hash CS) (oprf CS) r input (o_mul (oprf CS) (o_mul (oprf CS) P r) k) =
+    match i2osp_nat 2 (length input) with
+    | None => Err (ELibrary (LOprfError OInput))
+    | Some len => Ok (h_hash (hash CS) (len ++ input ++ be_bytes 2 (BinNat.N.of_nat (o_Noe (oprf CS))) ++
+                                        o_ser_e (oprf CS) (o_mul (oprf CS) P k) ++ Labels.STR_FINALIZE))
+    end.
+Theorem C01_oprf_unblind_at_each_of_the_20_suites : all_suites (fun _ _ _ _ CS => CurveLaws CS -> C01_oprf_unblind_statement CS).
+Proof. apply at_the_20_suites_g. exact C01_oprf_unblind. Qed.
+Print Assumptions C01_oprf_unblind_at_each_of_the_20_suites.
+
+Definition C01_ke_agreement_statement {E Sc Pk Sk} (CS : Suite E Sc Pk Sk) : Prop :=
+  forall tape req l2 cnonce ce cs ss u s ctx st ke2 rest dbg,
+    vk CS ce -> vk CS cs -> vk CS ss ->
+    generate_ke2 CS (private_key_ops (ke CS)) tape req l2
+                 {| k1_nonce := cnonce; k1_client_e_pk := k_pub (ke CS) ce |} (k_pub (ke CS) cs) ss u s ctx
+      = Ok (st, ke2, rest, dbg) ->
+    exists dbg',
+      generate_ke3 CS l2 ke2 {| k1s_client_e_sk := ce; k1s_nonce := cnonce |} req (k_pub (ke CS) ss) cs u s ctx
+        = Ok (sl_session_key st, {| cf_mac := h_hmac (hash CS) (sl_km3 st) (sl_hashed_transcript st) |}, dbg') /\
+      server_login_finish CS st {| cf_mac := h_hmac (hash CS) (sl_km3 st) (sl_hashed_transcript st) |}
+        = Ok (sl_session_key st).
+Theorem C01_ke_agreement_at_each_of_the_20_suites : all_suites (fun _ _ _ _ CS => CurveLaws CS -> C01_ke_agreement_statement CS).
+Proof. apply at_the_20_suites_g. exact C01_ke_agreement. Qed.
+Print Assumptions C01_ke_agreement_at_each_of_the_20_suites.
